@@ -44,9 +44,14 @@ def gen_script(rng, nclients=None, policy=None, track=None, auth=None, length=No
     policy = policy or rng.choice(["all", "all", "black", "white"])
     track = rng.random() < 0.3 if track is None else track
     auth = auth or rng.choice(["none", "none", "custom"])
+    proto = auth == "proto"
+    mismatch = rng.randrange(nclients) if (proto and nclients > 1 and rng.random() < 0.5) else None
+    s2c_ch = {k: v + (1 if proto else 0) for k, v in S2C_EVENT_CH.items()}
+    c2s_ch = {k: v + (1 if proto else 0) for k, v in C2S_EVENT_CH.items()}
     length = length or rng.choice([25, 40, 60, 90])
     kinds = [0, 1, 2, 3] + ([4] if periodic else [])
-    lines = ["cfg policy=%s auth=%s track=%d nclients=%d timeout=10000%s" % (policy, auth, int(track), nclients, " rel=1" if rel else ""),
+    lines = ["cfg policy=%s auth=%s track=%d nclients=%d timeout=10000%s%s" % (policy, auth, int(track), nclients, " rel=1" if rel else "",
+                                                                                 " mismatch=%d" % mismatch if mismatch is not None else ""),
              "start", "sframe 0 10"]
     wd = World()
     connected = {}            # slot -> dict(authorized)
@@ -60,6 +65,20 @@ def gen_script(rng, nclients=None, policy=None, track=None, auth=None, length=No
         if auth == "custom" and rng.random() < 0.8:
             lines.append("authorize %d" % c)
             connected[c]["authorized"] = True
+        if proto:
+            # the client sends its protocol hash in its first connected frame; the server decides when it arrives
+            lines.append("cframe %d" % c)
+            if rng.random() < 0.8:
+                lines.append("deliver %d c2s 1 all" % c)
+                if rng.random() < 0.15:
+                    # the connection dies right after the hash was handed to the server (before the server's next frame)
+                    lines.append("disconnect %d" % c)
+                    lines.append("cframe %d" % c)
+                    del connected[c]
+                    lines.append("sframe 0 10")
+                    return
+                lines.append("sframe 0 10")
+                connected[c]["authorized"] = (c != mismatch)
 
     first = rng.randrange(nclients)
     connect(first)
@@ -231,15 +250,19 @@ def gen_script(rng, nclients=None, policy=None, track=None, auth=None, length=No
         elif kind == "edeliver" and connected:
             c = rng.choice(sorted(connected))
             if rng.random() < 0.7:
-                ty = rng.choice(list(S2C_EVENT_CH))
-                ch = S2C_EVENT_CH[ty]
+                ty = rng.choice(list(s2c_ch))
+                ch = s2c_ch[ty]
                 if ty == "SEU":
                     lines.append("%s %d s2c %d %s" % (rng.choice(["deliver", "deliver", "drop"]), c, ch, rng.choice(["first", "last", "all"])))
                 else:
                     lines.append("deliver %d s2c %d %s" % (c, ch, rng.choice(["first", "all", "all"])))
             else:
-                ty = rng.choice(list(C2S_EVENT_CH))
-                lines.append("deliver %d c2s %d %s" % (c, C2S_EVENT_CH[ty], rng.choice(["first", "all", "all"])))
+                if proto and rng.random() < 0.3:
+                    lines.append("deliver %d c2s 1 all" % c)         # a late protocol hash
+                    connected[c]["authorized"] = connected[c]["authorized"] or (c != mismatch)
+                    continue
+                ty = rng.choice(list(c2s_ch))
+                lines.append("deliver %d c2s %d %s" % (c, c2s_ch[ty], rng.choice(["first", "all", "all"])))
         elif kind == "sop" and running:
             sop()
         elif kind == "sframe":
@@ -310,7 +333,7 @@ def gen_script(rng, nclients=None, policy=None, track=None, auth=None, length=No
         if late_join and running and len(connected) < nclients and rng.random() < 0.04:
             free = [c for c in range(nclients) if c not in connected]
             connect(rng.choice(free))
-    return lines, dict(nclients=nclients, policy=policy, track=track, auth=auth, events=events, connected=sorted(connected),
+    return lines, dict(nclients=nclients, policy=policy, track=track, auth=auth, events=events, proto=proto, mismatch=mismatch, connected=sorted(connected),
                        authorized=sorted(c for c in connected if connected[c]["authorized"]))
 
 
@@ -322,13 +345,18 @@ def settle_lines(meta, rounds=3):
         for c in meta["connected"]:
             out.append("deliver %d s2c 0 all" % c)
             out.append("deliver %d s2c 1 all" % c)
+            off = 1 if meta.get("proto") else 0
+            if meta.get("proto"):
+                out.append("deliver %d s2c 2 all" % c)
             if meta.get("events"):
                 for ch in sorted(S2C_EVENT_CH.values()):
-                    out.append("deliver %d s2c %d all" % (c, ch))
+                    out.append("deliver %d s2c %d all" % (c, ch + off))
             out.append("cframe %d" % c)
             out.append("deliver %d c2s 0 all" % c)
+            if meta.get("proto"):
+                out.append("deliver %d c2s 1 all" % c)
             if meta.get("events"):
                 for ch in sorted(C2S_EVENT_CH.values()):
-                    out.append("deliver %d c2s %d all" % (c, ch))
+                    out.append("deliver %d c2s %d all" % (c, ch + off))
     out.append("sframe 1 16")        # quiescent tick: must be silent (C11)
     return out
